@@ -37,6 +37,8 @@ def panic_sites(f):
         for st in b["stmts"]:
             if st["k"] == "assign" and not st["lhs"]["p"] and st["rv"]["k"] == "use" and st["rv"]["op"].get("k") == "const" and "str" in st["rv"]["op"]:
                 strs[st["lhs"]["l"]] = st["rv"]["op"]["str"]
+            elif st["k"] == "assign" and not st["lhs"]["p"] and st["rv"]["k"] == "use" and st["rv"]["op"].get("k") == "const" and st["rv"]["op"].get("def") in CONST_STRS:
+                strs[st["lhs"]["l"]] = CONST_STRS[st["rv"]["op"]["def"]]
     for _ in range(2):
         for b in blocks:
             for st in b["stmts"]:
@@ -120,10 +122,15 @@ def _norm(msg):
     return msg[:60]
 
 
+CONST_STRS = {}      # def path -> text of the named `&str` constants of the workspace (filled by collect_sites)
+
+
 def _const_str_arg(t, strs=None):
     for a in t["args"][1:]:
         if a.get("k") == "const" and "str" in a:
             return _norm(a["str"])
+        if a.get("k") == "const" and a.get("def") in CONST_STRS:
+            return _norm(CONST_STRS[a["def"]])     # `expect(ANNOTATION_MISSING)`: the message is a named constant
         l = op_local(a) if a.get("k") in ("copy", "move") else None
         if strs and l in strs:
             return _norm(strs[l])
@@ -158,6 +165,8 @@ def collect_sites(ctx):
     """(zone, fnkey, kind, detail) -> list of spans, for every site reachable from the entry points."""
     def build():
         fx = ctx.fx
+        CONST_STRS.clear()
+        CONST_STRS.update({k: c["str"] for k, c in fx.consts.items() if "str" in c})
         cg = callgraph.get(ctx)
         for e, _ in ZONE_A_ENTRIES:
             fx.fn(e)
